@@ -146,7 +146,7 @@ def run(ctx):
     ctx.assume('records are compared bit-exact NaN-aware with an independent Fitter(...).fit on the same line',
                'a run that writes no record is not generated (zero-byte file: nothing claimed)', 'filter_output is not driven on files holding a record with zero selected fits (no best chi^2 to classify)', 'plot_params_1d/2d (PNG renderers) are driven in the thorough tier only: files produced and unchanged inputs are compared, not the rendering')
     ctx.require_events('trace:fit-run', 'record:compared', 'meta:compared', 'forms:file-vs-list', 'forms:file-vs-object', 'sequence:compared', 'unchanged:checked', 'sequence:written-then-read')
-    ctx.require_regimes('list-from-two-reads', 'post:plot-with-stored-predictions')
+    ctx.require_regimes('model_dir:not-in-canonical-spelling', 'list-from-two-reads', 'post:plot-with-stored-predictions')
     ctx.require_regimes('skipped-sources', 'output_convolved', 'no-output_convolved', 'mode:2d', 'mode:3d', 'style:v1', 'style:v2',
                         'first-line-ineligible', 'short-line-ends-input', 'duplicate-source-name')
     n_runs = 5 if ctx.quick else 16
@@ -255,7 +255,12 @@ def run(ctx):
         oc = bool(rng.random() < 0.5) or style == 'v2' and False
         ctx.regime('output_convolved' if oc else 'no-output_convolved')
         aunit10 = [u.arcsec, u.arcmin, u.deg][irun % 3]          # the apertures may be given in any angle unit
-        kw = dict(filter_names=filt, apertures=(theta * u.arcsec).to(aunit10), model_dir=md, extinction_law=law, av_range=(0.0, 25.0), distance_range=dr)
+        # the model directory as the user spells it: plain, with a trailing slash, through '.', with a doubled separator - it must be
+        # read back as it was given
+        md_given = [md, md + '/', os.path.join(os.path.dirname(md), '.', os.path.basename(md)), os.path.dirname(md) + '//' + os.path.basename(md)][irun % 4]
+        if md_given != md:
+            ctx.regime('model_dir:not-in-canonical-spelling')
+        kw = dict(filter_names=filt, apertures=(theta * u.arcsec).to(aunit10), model_dir=md_given, extinction_law=law, av_range=(0.0, 25.0), distance_range=dr)
         wit0 = dict(mode=mode, style=style, n_lines=n_lines, n_data=ndat, n_data_min=n_data_min, selector=sel, output_convolved=oc)
         del TRACE[:]
         try:
@@ -325,7 +330,7 @@ def run(ctx):
             if (r.model_fluxes is not None) != oc:
                 ctx.violation('file:predicted-fluxes-presence', 'predicted fluxes present iff requested is violated', dict(wit0, source=e.source.name))
         mc = meta_canon(meta)
-        want_meta = {'model_dir': md, 'filters': [(None if style == 'v2' else bn[i], float(theta[i]), float(wav[i])) for i in range(nb)],
+        want_meta = {'model_dir': md_given, 'filters': [(None if style == 'v2' else bn[i], float(theta[i]), float(wav[i])) for i in range(nb)],
                      'law_wav': np.asarray(law.wav.to(u.micron).value, float), 'law_chi': np.asarray(lc, float)}
         ctx.event('meta:compared')
         try:
